@@ -312,11 +312,13 @@ namespace OpenMEEG::GeometryIOs {
         for (const auto& domain : geometry.domains())
             for (const auto& boundary : domain.boundaries()) {
                 const Interface& interface = boundary.interface();
-                if (std::find(interfaces.begin(),interfaces.end(),&interface)!=interfaces.end())
+                //  Every domain holds its own copy of an interface: identify interfaces by name.
+                const auto same_name = [&](const Interface* i) { return i->name()==interface.name(); };
+                if (std::find_if(interfaces.begin(),interfaces.end(),same_name)==interfaces.end())
                     interfaces.push_back(&interface);
                 for (const auto& omesh : interface.oriented_meshes()) {
                     const Mesh& mesh = omesh.mesh();
-                    if (std::find(meshes.begin(),meshes.end(),&mesh)!=meshes.end())
+                    if (std::find(meshes.begin(),meshes.end(),&mesh)==meshes.end())
                         meshes.push_back(&mesh);
                 }
             }
